@@ -5,6 +5,7 @@ Every random choice comes from the ``random.Random`` handed in, so a case replay
 {1, 2, 3, 1/2, 1/4} plus the gate probes {0, -1, nan}.
 """
 import math
+import random
 import sys
 import os
 
@@ -104,8 +105,13 @@ def gen_spec(rng, depth, kinds=None, leaf_kinds=None, allow_bag=True):
 
     def flow():
         # flows are usually Counts, sometimes richer
-        if rng.random() < 0.8:
+        r_ = rng.random()
+        if r_ < 0.8:
             return {"k": "Count"}
+        hist = [k_ for k_ in ("Bin", "SparselyBin", "Categorize", "IrregularlyBin", "CentrallyBin", "Stack", "Fraction") if k_ in kinds]
+        if r_ > 0.93 and hist and depth > 0:
+            # a histogram of Counts as a flow (specialize() gives such containers a mix-in class of another class name)
+            return gen_spec(rng, 1, hist + ["Count"], ["Count"], allow_bag)
         return gen_spec(rng, 0, kinds, leaf_kinds, allow_bag)
 
     if k == "Count":
@@ -289,12 +295,21 @@ def col3(d):
 DEFS = {0: col0, 1: col1, 2: col2, 3: col3}
 
 
+def _local_def(col):
+    """a quantity written as a def inside another function (not reachable as module.name), the column bound as a default"""
+    def colq(d, col=col):
+        return _cell(d, col)
+    return colq
+
+
 def mkq(q):
     """q = [column, name] or [column, name, form]; form in lambda (default) | def | str | cached | cachedstr"""
     col, name = q[0], q[1]
     form = q[2] if len(q) > 2 else "lambda"
     if form == "def" and col in DEFS:
         return DEFS[col]                      # implicit name colN
+    if form == "localdef":
+        return _local_def(col)                # a def made inside another function; implicit name colq
     if form == "str":
         return "c%d" % col                    # string expression; implicit name is its text
     if form == "cachedstr":
@@ -308,6 +323,11 @@ def mkq(q):
         f = named(name, "c%d" % col) if name is not None else "c%d" % col
         return cached(f) if form == "cachednamedstr" else f
     f = make_quantity(col)
+    if form == "nandefault":
+        # a self-contained lambda with a NaN and an array among its default arguments (a "missing" marker, a look-up table)
+        import numpy as _np
+
+        f = lambda d, col=col, missing=float("nan"), table=_np.arange(3.0): _cell(d, col)  # noqa: E731
     if form == "cached":
         from histogrammar.util import cached
 
@@ -319,6 +339,8 @@ def effective_name(q):
     form = q[2] if len(q) > 2 else "lambda"
     if form == "def" and q[0] in DEFS:
         return "col%d" % q[0]
+    if form == "localdef":
+        return "colq"
     if form in ("str", "cachedstr"):
         return "c%d" % q[0]
     if form in ("namedstr", "cachednamedstr"):
@@ -460,7 +482,17 @@ def gen_weight(rng, gate_rate=0.15):
 
 def gen_stream(rng, spec, n, fault_rate=0.0, gate_rate=0.15):
     crit = critical_values(spec)
-    return [(gen_datum(rng, crit, fault_rate), gen_weight(rng, gate_rate)) for _ in range(n)]
+    out = [(gen_datum(rng, crit, fault_rate), gen_weight(rng, gate_rate)) for _ in range(n)]
+    if any(s_["k"] == "Bag" and s_.get("range") == "N2" for s_ in walk(spec)):
+        # a Bag of vectors: equal vectors must be recognised as one key, also when a component is NaN (every record
+        # carries its own NaN object once the case went through its JSON form)
+        r2 = random.Random(rng.random())
+        for i in range(1, len(out)):
+            if r2.random() < 0.45:
+                src = out[r2.randrange(i)][0][VEC_COL]
+                if isinstance(src, list):
+                    out[i][0][VEC_COL] = list(src)
+    return out
 
 
 # ---------------------------------------------------------------- structural perturbation (C09, C10)
@@ -488,7 +520,7 @@ def _depth(path):
     return sum(1 for p in path if p in ("value", "underflow", "overflow", "nanflow", "cut", "pairs", "values"))
 
 
-def perturb_spec(rng, spec, allow_type_swap=True, allow_dupcenter=False):
+def perturb_spec(rng, spec, allow_type_swap=True, allow_dupcenter=False, allow_qname=False):
     """A copy of `spec` that differs in exactly one structural parameter or one child type at a
     random position.  Returns (spec2, description, depth of the changed node) or None."""
     import copy
@@ -499,14 +531,18 @@ def perturb_spec(rng, spec, allow_type_swap=True, allow_dupcenter=False):
         cands = []
         for path in _paths(s2):
             k0 = _get(s2, path)["k"]
-            per = {"Bin": ["n", "low", "high"], "SparselyBin": ["width", "origin"], "CentrallyBin": ["center", "addcenter", "dupcenter"],
-                   "IrregularlyBin": ["edge", "addedge", "dropedge"], "Stack": ["edge", "addedge", "dropedge"],
+            per = {"Bin": ["n", "low", "high", "lowtiny", "hightiny"], "SparselyBin": ["width", "origin", "widthtiny", "origintiny"],
+                   "CentrallyBin": ["center", "addcenter", "dupcenter", "centertiny"],
+                   "IrregularlyBin": ["edge", "addedge", "dropedge", "edgetiny"], "Stack": ["edge", "addedge", "dropedge", "edgetiny"],
                    "Bag": ["range"], "Label": ["renamekey", "addmember", "kindswap"], "UntypedLabel": ["renamekey", "addmember", "kindswap"],
                    "Index": ["addmember", "kindswap"], "Branch": ["addmember", "kindswap"]}.get(k0, [])
             for c0 in per:
-                if c0 == "dupcenter" and not allow_dupcenter:
-                    continue   # a repeated centre is only meaningful for a container that is never filled (C10)
+                if (c0 == "dupcenter" or c0.endswith("tiny")) and not allow_dupcenter:
+                    continue   # a repeated centre / a parameter moved by one float: only for containers that are never filled (C10)
                 cands += [(path, c0)] * 4
+            if allow_qname and "q" in _get(s2, path) and k0 != "Select":
+                # the name of the quantity is part of what == compares (Select excepted: its == does not look at the quantity)
+                cands += [(path, "qname")] * 2
             if allow_type_swap:
                 cands.append((path, "type"))
                 cands.append((path, "wrapselect"))
@@ -548,6 +584,9 @@ def perturb_spec(rng, spec, allow_type_swap=True, allow_dupcenter=False):
             if len(node["edges"]) < 2:
                 continue
             node["edges"] = node["edges"][:-1]
+        elif c == "qname":
+            cur = node["q"][1]
+            node["q"] = [node["q"][0], rng.choice([n for n in ["x", "y", "q", "w8", "zz", None] if n != cur])] + list(node["q"][2:])
         elif c == "range":
             node["range"] = {"S": "N", "N": "N2", "N2": "N"}[node["range"]]
             node["q"][0] = {"S": PURE_STR_COL, "N": 0, "N2": VEC_COL}[node["range"]]
@@ -561,6 +600,30 @@ def perturb_spec(rng, spec, allow_type_swap=True, allow_dupcenter=False):
                 node["pairs"]["zz"] = copy.deepcopy(first)
             else:
                 node["values"].append(copy.deepcopy(node["values"][0]))
+        elif c in ("lowtiny", "hightiny", "widthtiny", "origintiny", "centertiny", "edgetiny"):
+            # a structural parameter that differs by very little (the next float, or 1e-9): still a different binning
+            import math as _m
+
+            def nudge(v):
+                return _m.nextafter(v, _m.inf) if rng.random() < 0.5 else v + 1e-9
+            if c == "lowtiny":
+                node["low"] = nudge(node["low"])
+            elif c == "hightiny":
+                node["high"] = nudge(node["high"])
+            elif c == "widthtiny":
+                node["width"] = nudge(node["width"])
+            elif c == "origintiny":
+                node["origin"] = nudge(node["origin"])
+            elif c == "centertiny":
+                i = rng.randrange(len(node["centers"]))
+                node["centers"][i] = nudge(node["centers"][i])
+                if sorted(set(node["centers"])) != node["centers"]:
+                    continue
+            else:
+                i = rng.randrange(len(node["edges"]))
+                node["edges"][i] = nudge(node["edges"][i])
+                if sorted(set(node["edges"])) != node["edges"]:
+                    continue
         elif c == "wrapselect":
             # the same aggregator behind a Select (which forwards attribute access to its cut): a different primitive
             wrapped = {"k": "Select", "q": [BOOL_COL, None], "cut": copy.deepcopy(node)}
